@@ -42,3 +42,12 @@ plan("C15", "exploration",
      "non-trivial = at least two requests in flight at once. Oracle: the enabled set (decided by TryLock on the real mutexes) is never empty "
      "while requests remain, every request returns, locker call discipline per request.",
      q, t)
+
+HIST_RULE = ("one case = one seeded history of 5-60 conflict-seeking {kind} requests (advance / same-{unit} / lower / boundary values incl. >= 2^63; "
+             "by name, by key, both; {extra}) over 1-4 keys, processed sequentially or in concurrent phases of 2-5 requests under the seeded scheduler, "
+             "with clean restarts and crash restarts (directory image) in between; distinct = distinct history; non-trivial = at least two signatures were released. "
+             "Oracle: every released signature is entered in a per-key ledger and compared pairwise with all earlier ones{strict}.")
+q, t = tiers(250, 60, 20000, 1200)
+plan("C01", "exploration", HIST_RULE.format(kind="attestation", unit="target", extra="single and batched, batches repeating a key", strict=" (double vote, surround either way)"), q, t)
+q, t = tiers(250, 60, 20000, 1200)
+plan("C02", "exploration", HIST_RULE.format(kind="proposal", unit="slot", extra="proposer and foreign domains", strict=" (same slot/different block; in sequential histories slots must strictly increase in release order)"), q, t)
